@@ -391,6 +391,45 @@ def check_counts(case, pts, sampler, out, stats):
     stats["count_checked"] = stats.get("count_checked", 0) + 1
 
 
+def check_bbox_history(case, domain, P, out, stats):
+    """C18 (i'): a HISTORY of bounding_box calls on the same object, one parameter row at a time (as the LHS sampler
+    asks) and BEFORE any call with the whole batch: the box of a row must enclose that row's block of samples
+    whatever was asked before."""
+    if P is None or not P:
+        return
+    dom = case["dom"]
+    if _has_dependent_product(dom):
+        return
+    sp = G.space(dom)
+    dimn = sum(d for _, d in sp)
+    coords = np.concatenate([P[v] for v, _ in sp], axis=1)
+    tol = 1e-4
+    # a HISTORY of calls on the same object, one parameter row at a time (as the LHS sampler asks): the box of a
+    # row must enclose the rows of that row's block whatever was asked before
+    prows = case.get("prows") or []
+    e = case["entry"]
+    if len(prows) >= 2 and e.get("n") and len(coords) == int(e["n"]) * len(prows) and not any(
+            k_ in ("transl", "rot") for k_ in G.kinds(dom)):        # (F28: matrix-valued boxes of transforms)
+        n = int(e["n"])
+        order = sorted(range(len(prows)), key=lambda i: H(case["rng"], "bbox-order", i))
+        for i in order:
+            try:
+                bi = domain.bounding_box(B.params_points(case.get("pspace"), [prows[i]]))
+            except Exception as ex:
+                out.append(viol("C18", "bbox-call", "raises:" + type(ex).__name__, innermost_site(ex.__traceback__),
+                                msg=str(ex)[:160], single_row=True))
+                return
+            bi = torch.as_tensor(bi).double().reshape(-1).numpy() if not isinstance(bi, list) else np.asarray(bi, float)
+            if len(bi) != 2 * dimn:
+                return
+            blk = coords[i * n:(i + 1) * n]
+            stats["bbox_single_row_calls"] = stats.get("bbox_single_row_calls", 0) + 1
+            if (blk < bi[0::2] - tol).any() or (blk > bi[1::2] + tol).any():
+                worst = float(max((bi[0::2] - blk).max(), (blk - bi[1::2]).max()))
+                out.append(viol("C18", "enclosure", "sample-outside-box-of-its-own-row", "", worst=worst, box=bi.tolist(), row=i))
+                return
+
+
 def check_bbox(case, domain, P, out, stats):
     """C18 (i): every produced point lies in bounding_box(params)."""
     if P is None or not P:
@@ -915,6 +954,7 @@ def run_case(case, props=("C01", "C02", "C05", "C06", "C10", "C18"), monitors=Tr
                 sim.paused += 1
                 try:
                     if "C18" in props:
+                        check_bbox_history(case, domain, P, out, stats)
                         check_bbox(case, domain, P, out, stats)
                         check_bbox_tight(case, domain, out, stats)
                         check_normalization(case, domain, pts, P, out, stats)
